@@ -2,11 +2,11 @@
 #include "sched.h"
 #include <stdio.h>
 #include <stdlib.h>
-long k_barrier(void), k_dynamic(void), k_for_in_region(void), k_single_atomic_critical(void), k_sections_in_region(void), k_locks(void), k_tasks(void), k_racy_counter(void), k_racy_nowait(void);
+long k_barrier(void), k_dynamic(void), k_for_in_region(void), k_single_atomic_critical(void), k_sections_in_region(void), k_locks(void), k_tasks(void), k_racy_counter(void), k_racy_nowait(void), k_tls(void), k_pthread(void);
 #define N 2000
 typedef struct { const char *name; long (*fn)(void); int racy; } kern_t;
 static kern_t K[] = { { "barrier", k_barrier, 0 }, { "dynamic", k_dynamic, 0 }, { "for_in_region", k_for_in_region, 0 }, { "single_atomic_critical", k_single_atomic_critical, 0 },
-                      { "sections_in_region", k_sections_in_region, 0 }, { "locks", k_locks, 0 }, { "tasks", k_tasks, 0 }, { "racy_counter", k_racy_counter, 1 }, { "racy_nowait", k_racy_nowait, 1 } };
+                      { "sections_in_region", k_sections_in_region, 0 }, { "locks", k_locks, 0 }, { "tasks", k_tasks, 0 }, { "racy_counter", k_racy_counter, 1 }, { "racy_nowait", k_racy_nowait, 1 }, { "tls", k_tls, 0 }, { "pthread", k_pthread, 0 } };
 int main(int argc, char **argv) {
   int nseeds = argc > 1 ? atoi(argv[1]) : 40, fails = 0, racy_seen[2] = { 0, 0 }, racy_runs[2] = { 0, 0 };
   unsigned long long nbar = 0, nchunk = 0, nsw = 0;
@@ -32,6 +32,8 @@ int main(int argc, char **argv) {
       case 4: want = 6; break;
       case 5: want = 5L * team; break;
       case 6: want = 55; break;
+      case 9: want = 160L * team * (team + 1) / 2; break;
+      case 10: want = 35L * 4 * team * 10 + 1; break;
       default: want = -1;
       }
       if (!K[k].racy) {
